@@ -80,6 +80,31 @@ func openFlagsWrite(c ssa.CallInstruction, argIdx int) (bool, bool) {
 // mutatorLabel classifies a call as a file-system mutation.
 func mutatorLabel(c ssa.CallInstruction) (string, bool) {
 	f := calleeOf(c)
+	if f == nil && !c.Common().IsInvoke() && c.Common().StaticCallee() == nil {
+		// a call through a method value (remove := root.Remove; … remove(name)),
+		// possibly chosen between several: any mutating os.Root / os.File method
+		for _, leaf := range phiLeaves(unwrapLocal(c.Common().Value)) {
+			mc, ok := leaf.(*ssa.MakeClosure)
+			if !ok {
+				continue
+			}
+			fn, ok := mc.Fn.(*ssa.Function)
+			if !ok || !strings.HasSuffix(fn.Name(), "$bound") {
+				continue
+			}
+			obj, ok := fn.Object().(*types.Func)
+			if !ok {
+				continue
+			}
+			rp, rtn := recvTypeName(obj)
+			if rp == "os" && rtn == "Root" && rootMutators[obj.Name()] {
+				return "(*os.Root)." + obj.Name() + " [method value]", true
+			}
+			if rp == "os" && rtn == "File" && fileMutators[obj.Name()] {
+				return "(*os.File)." + obj.Name() + " [method value]", true
+			}
+		}
+	}
 	if f == nil || f.Pkg() == nil {
 		return "", false
 	}
